@@ -6,7 +6,7 @@ from ..report import Inconclusive
 from ..gram import model as gm
 from ..gram.g4 import Lit, Ref
 from ..py.eff import nonfresh
-from ..py.guards import AEval, Reach, KINDS, resolved_text, stmt_of
+from ..py.guards import AEval, Reach, KINDS, ModelError, resolved_text, stmt_of, single_assignments
 from ..py.index import u, walk_shallow
 from . import common
 from .c19 import get_ord, pairing
@@ -141,30 +141,78 @@ def c08_4(rep, ix):
         rep.check(direct, R, ix.site(f, st), "%s slot: the stored value is RegRefTransform(<the element>) constructed at this point (not a cached or shared object)" % slot,
                   "stores `%s`" % u(v), key=slot + "|direct")
         # guard semantics
-        syms = ["q0", "p"]
-        for kname in ("Sym", "PyFloat", "PyInt", "NpFloat", "PyStr", "PyComplex"):
-            subsets = list(itertools.chain.from_iterable(itertools.combinations(syms, r) for r in range(1, 3))) if kname == "Sym" else [()]
-            for S in subsets:
+        for kname, model, S, P, want in wrap_models():
+            def atom(node, model=model, S=S, P=P):
+                if isinstance(node, ast.Name) and node.id == var:
+                    return model
+                if isinstance(node, ast.Name) and node.id == PARAMS:
+                    return tuple(P)
+                return AEval.NO
+            r = reach_in_loop(l, st, atom)
+            rep.check(r == want, R, ix.site(f, st), "%s slot: a %s value with symbols {%s} and template parameters {%s} is %s" % (
+                slot, kname, ",".join(S), ",".join(P), "wrapped" if want else "left as it is"), key="%s|%s|%s|%s" % (slot, kname, S, P))
+    # rebuilding form: X = [H(a) for a in X] / {k: H(v) for k, v in X.items()} - the element expression is interpreted on every model
+    for n in walk_shallow(fn):
+        if not (isinstance(n, ast.Assign) and len(n.targets) == 1 and isinstance(n.targets[0], ast.Name) and isinstance(n.value, (ast.ListComp, ast.DictComp)) and len(n.value.generators) == 1):
+            continue
+        g = n.value.generators[0]
+        it = " ".join(u(g.iter).split())
+        if isinstance(n.value, ast.ListComp) and it in extracted and isinstance(g.target, ast.Name) and not g.ifs:
+            slot, var, elt = "positional", g.target.id, n.value.elt
+        elif isinstance(n.value, ast.DictComp) and it[:-len(".items()")] in extracted and it.endswith(".items()") and isinstance(g.target, ast.Tuple) and len(g.target.elts) == 2 and not g.ifs \
+                and u(n.value.key) == u(g.target.elts[0]):
+            slot, var, elt = "keyword", u(g.target.elts[1]), n.value.value
+        else:
+            continue
+        if slot in slots:
+            continue
+        # the rebuilt container must be the one the operation stores
+        used = [d for d in walk_shallow(fn) if isinstance(d, ast.Dict) and any(isinstance(k, ast.Constant) and k.value == "op" for k in d.keys)]
+        ok_used = any(u(v_) == n.targets[0].id for d in used for v_ in d.values)
+        rep.check(ok_used, R, ix.site(f, n), "%s slot: the rebuilt container is the one stored in the operation" % slot, key=slot + "|stored")
+        slots[slot] = (n, None, var)
+        alias = single_assignments(fn)
+        for kname, model, S, P, want in wrap_models():
+            def atom(node, model=model, P=P, depth=[0]):
+                if isinstance(node, ast.Name) and node.id == var:
+                    return model
+                if isinstance(node, ast.Name) and node.id == PARAMS:
+                    return tuple(P)
+                if isinstance(node, ast.Name) and node.id in alias and node.id not in (var,) and depth[0] < 4:
+                    depth[0] += 1
+                    try:
+                        return AEval(atom).ev(alias[node.id])
+                    finally:
+                        depth[0] -= 1
+                return AEval.NO
+            try:
+                r = AEval(atom).ev(elt)
+                got = "wrapped" if (isinstance(r, tuple) and r[:1] == ("RRT",) and r[1] is model) else ("left as it is" if r is model else "replaced by %r" % (r,))
+            except ModelError as e_:
+                got = "refused (%s)" % e_
+            rep.check(got == ("wrapped" if want else "left as it is"), R, ix.site(f, n), "%s slot: a %s value with symbols {%s} and template parameters {%s} is %s" % (
+                slot, kname, ",".join(S), ",".join(P), "wrapped" if want else "left as it is"), "it is %s" % got, key="%s|%s|%s|%s" % (slot, kname, S, P))
+
+
+def wrap_models():
+    """(label, model element, symbols of the value, template parameters, must it be wrapped?) - registers with one and with several
+    digits (the REGREF token is 'q' DIGIT with DIGIT = [0-9]+), alone, together, and mixed with a template parameter; symbolic values
+    of every expression head (a lone symbol, a sum, a product, a power, a function application)"""
+    from ..py.guards import SYM_KINDS
+    syms = ["q0", "q10", "p"]
+    out = []
+    for head, k in SYM_KINDS.items():
+        for r in ((1,) if head == "Symbol" else (1, 2)):
+            for S in itertools.combinations(syms, r):
                 for P in ((), ("p",)):
-                    def atom(node, kname=kname, S=S, P=P):
-                        if isinstance(node, ast.Name) and node.id == var:
-                            return KINDS[kname]
-                        if isinstance(node, ast.Attribute) and node.attr == "free_symbols" and u(node.value) == var:
-                            return frozenset(S)
-                        if isinstance(node, ast.Name) and node.id == PARAMS:
-                            return tuple(P)
-                        return AEval.NO
-                    r = Reach(l, st).may_reach(atom) if False else reach_in_loop(l, st, atom)
-                    want = kname == "Sym" and not set(S) <= set(P)
-                    rep.check(r == want, R, ix.site(f, st), "%s slot: a %s value with symbols {%s} and template parameters {%s} is %s" % (
-                        slot, kname, ",".join(S), ",".join(P), "wrapped" if want else "left as it is"), key="%s|%s|%s|%s" % (slot, kname, S, P))
-    rep.check(set(slots) == {"positional", "keyword"}, R, ix.site(f), "both the positional and the keyword arguments are wrapped", "found %s" % sorted(slots), key="both slots")
-    # EFF: the stored value is fresh
-    E = common.eff(rep)
-    for e in E.events.get(STMT, []):
-        if any(e.node is st for st in sites) and e.stored is not None:
-            rep.check(not nonfresh(e.stored.self_o), R, ix.site(f, e.node), "`%s` stores a freshly constructed transform" % " ".join(u(e.node).split())[:60],
-                      "the stored object may be %s" % nonfresh(e.stored.self_o), key="fresh|" + " ".join(u(e.node).split())[:60])
+                    extra = dict(free_symbols=frozenset(S))
+                    if head == "Symbol":
+                        extra["symbol"] = S[0]
+                    out.append(("Sym/%s" % head, k.with_attrs(**extra), S, P, not set(S) <= set(P)))
+    for kname in ("PyFloat", "PyInt", "NpFloat", "PyStr", "PyComplex"):
+        for P in ((), ("p",)):
+            out.append((kname, KINDS[kname], (), P, False))
+    return out
 
 
 def reach_in_loop(loop, st, atom):
